@@ -611,14 +611,13 @@ def make_tasks(tier):
             dplan = [(0, NOISE[0]), (0, NOISE[1]), (0, NOISE[2]), (1, NOISE[0]), (1, NOISE[1]), (2, NOISE[0]),
                      (2, NOISE[2])]
         for i, noise in dplan:
-            if True:
-                for pi, (n, alpha, allt, single) in enumerate(data_plan("D", d, tier)):
-                    total = n_multisets(len(alpha), n)
-                    size = 1200 if n <= 2 else 700
-                    nch = max(1, math.ceil(total / size))
-                    for c in range(nch):
-                        tasks.append(dict(block="D", d=d, spec=i, tier=tier, noises=[noise], plan=pi, chunk=c,
-                                          chunk_size=size, w=min(total, size) / 100.0))
+            for pi, (n, alpha, allt, single) in enumerate(data_plan("D", d, tier)):
+                total = n_multisets(len(alpha), n)
+                size = 1200 if n <= 2 else 700
+                nch = max(1, math.ceil(total / size))
+                for c in range(nch):
+                    tasks.append(dict(block="D", d=d, spec=i, tier=tier, noises=[noise], plan=pi, chunk=c,
+                                      chunk_size=size, w=min(total, size) / 100.0))
         # block Q: operation sequences
         if tier == "quick":
             plan = {1: [(0, NOISE[0]), (0, NOISE[2]), (4, NOISE[0]), (4, NOISE[2]), (3, NOISE[1])],
